@@ -12,10 +12,10 @@ import (
 
 func TestVerif(t *testing.T) {
 	vsim.Main(t, map[string]vsim.Scenario{
-		"C01": scenC01,
-		"C02": scenC02,
-		"C04": scenC04,
-		"C07": scenC07,
+		"C01":  scenC01,
+		"C02":  scenC02,
+		"C04":  scenC04,
+		"C07":  scenC07,
 		"C06K": scenC06K,
 		"C19K": scenC19K,
 	})
